@@ -12,5 +12,7 @@ import PanderaModel.Props.C14
 #print axioms Pandera.Infer.roundNat_small
 #print axioms Pandera.Infer.roundF64_small
 #print axioms Pandera.Infer.float_bounds_accept
+#print axioms Pandera.Infer.float_bounds_accept_binary64
+#print axioms Pandera.Infer.roundF64_monotone
 #print axioms Pandera.Infer.inference_table_ok
 #print axioms Pandera.Infer.strict_bound_rejects
